@@ -537,10 +537,12 @@ def _judge_cells(ctx, sigbase, got, expected, inst):
 def unit_dict(ctx):
     quick = ctx.tier == "quick"
     n = ctx.choose("n", DICT_SHAPES_Q if quick else DICT_SHAPES_T)
-    geom = ctx.choose("geom", ["unit"] if quick else ["unit", "off", "nano"])
+    # quick: the lattice with non-representable faces ("off": faces at -0.3 + 0.1 k ...) with one component and one dtype
+    geom = ctx.choose("geom", ["unit", "off"] if quick else ["unit", "off", "nano"])
+    slim = quick and geom == "off"
     lay = ctx.choose("layout", LAYOUT_NAMES)
-    nvdim = ctx.choose("nvdim", [1, 3] if quick else [1, 2, 3])
-    dt = ctx.choose("dtype", ["None", "int", "bool"] if quick else DTYPES_T)
+    nvdim = ctx.choose("nvdim", [1] if slim else [1, 3] if quick else [1, 2, 3])
+    dt = ctx.choose("dtype", ["None"] if slim else ["None", "int", "bool"] if quick else DTYPES_T)
     subkinds = ["const", "callable", "array"] + (["linear"] if dt in ("None", "float", "complex") and not quick else [])
     layout = _layouts(n)[lay]
     subkind = ctx.choose("subvalue", subkinds if layout else ["const"])
